@@ -10,6 +10,7 @@ mod rng;
 mod suite;
 mod suites;
 mod tksf;
+mod watch;
 mod wire;
 mod world;
 
@@ -107,6 +108,9 @@ fn main() {
     let all = suites::all();
     let args = Args::parse();
     let seed = args.num("seed", 0);
+    // a call into opaque-ke that never returns ends the process with exit code 3 and a replay file
+    watch::start(args.get("replay-dir", &std::env::var("VERIF_REPLAY_DIR").unwrap_or_default()),
+                 args.get("prop", &std::env::var("VERIF_PROP").unwrap_or_default()));
     match args.cmd.as_str() {
         "suites" => {
             for s in &all {
